@@ -23,6 +23,7 @@ package criteria_omission
 //@   ensures [fresh_state] fresh(result0.ConsideredAlternatives) && fresh(result0.NotConsideredAlternatives)
 
 //@ func (*CriteriaOmission).Apply
+//@   refines model.Bias.Apply
 //@   property C15 C07 C09
 //@   requires model.coherent(*listener, *current)
 //@   ensures [report_type] typeis(result.Props, CriteriaOmissionResult)
